@@ -264,7 +264,7 @@ fn parent(args: &vpc::Args) -> ! {
                             match found {
                                 Some((case, sub, tag, d2, sig)) => {
                                     let parts: Vec<&str> = tag.split('|').collect();
-                                    let skipsig = format!("{}|{}|{}", parts.first().unwrap_or(&""), parts.get(2).unwrap_or(&""), parts.get(3).unwrap_or(&""));
+                                    let skipsig = infra::skip_key(parts.first().unwrap_or(&""), parts.get(2).unwrap_or(&""), parts.get(3).unwrap_or(&""));
                                     let w = json!({"profile": p.name, "space": space.name(), "case": case, "sub": sub, "shape": tables.describe(space, case), "operation": tag, "death": d2, "crash": true});
                                     crash_classes.push((skipsig.clone(), p.name.to_string(), json!({"class": format!("{}@{}", signame(sig), skipsig), "witness": w})));
                                     skip.insert(skipsig);
@@ -298,8 +298,8 @@ fn parent(args: &vpc::Args) -> ! {
     }
     let report = |class: &str, n: u64, w: &Value, what: &str| {
         run.violation(class, what, w.clone());
-        for _ in 1..n.min(100_000) {
-            run.violation(class, "", Value::Null);
+        for _ in 1..n.min(1_000_000) {
+            run.violation(class, what, Value::Null);
         }
     };
     for (class, (n, w)) in &chk.fails {
@@ -307,7 +307,7 @@ fn parent(args: &vpc::Args) -> ! {
             if rel.fails.contains_key(class) {
                 continue; // reported from the release results below
             }
-            let c2 = format!("debug-only-{class}");
+            let c2 = format!("relcheck-only-{class}");
             report(&c2, *n, w, &format!("panics only in a build with debug assertions / overflow checks (release build: no panic here; see the release-profile classes for what happens instead): {}", w["what"].as_str().unwrap_or("")));
         } else {
             report(class, *n, w, w["what"].as_str().unwrap_or(""));
@@ -328,7 +328,7 @@ fn parent(args: &vpc::Args) -> ! {
     let g = |m: &Merged, k: &str| m.counters.get(k).copied().unwrap_or(0);
     let evaluations = g(chk, "constructor_calls") + g(chk, "subject_calls") + g(rel, "constructor_calls") + g(rel, "subject_calls");
     let quick_bound = "stdpath: {0,1,2,3,62,63}^3 segment triples x every prefix length 0..=n+1 x 2 fills + all 256 (CurrINF,CurrHF); header: path types {0,2,3,4,5,255,1 x reduced cube} x 256 DT/DL,ST/SL nibble pairs x HdrLen {consistent,+1,-1,0,9,255} x boundary truncations b,b+-1 x 2 fills; l4: 64 header shapes x NextHdr{17,202,0,255} x {UDP length 0,7,8,real,65535 | SCMP type 1,2,4,5,6,128,129,130,131,0,255} x 3 body sizes x PayloadLen{0,7,8,real,real+1,65535} x truncations x 2 fills, and every prefix of every upper-layer body through all payload view types; seq: all mutator sequences of length <= 2 on the representative buffers";
-    let thorough_bound = "stdpath: full 2^18 segment triples x boundary truncations (every prefix on the reduced cube) x 2 fills + all 256 (CurrINF,CurrHF); header: full 2^18 triples x 256 nibble pairs (triples whose header cannot fit 1020 bytes: 16 length nibble pairs) x HdrLen variants x boundary truncations x 2 fills; l4 as quick; seq: sequences <= 3 on path/payload views, <= 2 on packet/header views";
+    let thorough_bound = "stdpath: full 2^18 segment triples x boundary truncations (every prefix on the reduced cube) x 2 fills + all 256 (CurrINF,CurrHF); header: full 2^18 triples x 16 address-length nibble pairs (all 256 type/length nibble pairs for the reduced cube and the other path types) x HdrLen variants x boundary truncations x 2 fills; l4 as quick; seq: sequences <= 3 on path/payload views, <= 2 on packet/header views";
     run.finish(
         "exploration",
         json!({
